@@ -126,9 +126,10 @@ class Ctx:
     def violation(self, mechanism: str, description: str, case: Any) -> None:
         """A refutation of the property.  ``mechanism`` says *how* it fails."""
         self.violation_mechs[mechanism] += 1
-        if len(self.violations) < MAX_VIOLATIONS_KEPT and sum(
-            1 for v in self.violations if v["mechanism"] == mechanism
-        ) < 3:
+        kept = sum(1 for v in self.violations if v["mechanism"] == mechanism)
+        # the first witness of a mechanism is always kept: the cap bounds the size of a result, never which
+        # mechanisms get reported
+        if kept == 0 or (len(self.violations) < MAX_VIOLATIONS_KEPT and kept < 3):
             self.violations.append(
                 {
                     "mechanism": mechanism,
